@@ -499,7 +499,9 @@ def apply_init(st, s, d, ent):
     elif form == "dmrowN1":
         v = ca.DM(guess_table(1, N + 1, val))
     elif form == "expr":
-        v = GUESS[val](CA, s["t"])
+        # same shape as the target: element i is g(t)*(1+0.5 i)
+        g = GUESS[val](CA, s["t"])
+        v = g if n == 1 else ca.reshape(ca.vertcat(*[g * (1 + 0.5 * i) for i in range(n)]), sym.shape[0], sym.shape[1])
     else:
         raise KeyError(form)
     st.set_initial(sym, v)
